@@ -258,7 +258,9 @@ func runC03(res *result) {
 				bad, kind = fmt.Sprintf("handler invoked %d times", cr.HandlerCalls), "handler-invocations"
 			default:
 				for ai := range cs.Args {
-					if ai >= len(cr.HandlerArgs[0]) || canonOf(cr.HandlerArgs[0][ai]) != canonOf(cs.Args[ai]) {
+					if len(cr.HandlerArgs) == 0 || ai >= len(cr.HandlerArgs[0]) {
+						bad, kind = fmt.Sprintf("argument %d: the handler that ran did not record it (another method's handler?), caller passed %s", ai+1, canonOf(cs.Args[ai])), "arguments-differ"
+					} else if canonOf(cr.HandlerArgs[0][ai]) != canonOf(cs.Args[ai]) {
 						bad, kind = fmt.Sprintf("argument %d: handler saw %s, caller passed %s", ai+1, canonOf(cr.HandlerArgs[0][ai]), canonOf(cs.Args[ai])), "arguments-differ"
 					}
 				}
